@@ -126,6 +126,9 @@ impl<D: Doc> Root<D> {
   pub fn get_injections<F: Fn(&str) -> Option<D::Lang>>(&self, get_lang: F) -> Vec<Root<D>> {
     let root = self.root();
     let range = self.lang().extract_injections(root);
+    // the map has no order of its own: list the documents by their position in the source
+    let mut range: Vec<_> = range.into_iter().collect();
+    range.sort_by_key(|(_, ranges)| ranges.first().map(|r| r.start_byte()));
     let roots = range
       .into_iter()
       .filter_map(|(lang, ranges)| {
